@@ -16,10 +16,10 @@ PROPERTY = "C12"
 LEVEL = "exploration"
 RULE = (
     "histories over pools of 3-6 generated messages (commands / responses with encrypted parameter areas of different "
-    "command codes, plain ones, failed responses, malformed variants in warn mode): sequential repetitions A,B,A / A,B,C,A, "
+    "command codes, plain ones, failed responses, malformed variants in warn mode, stand-alone structures, value-faulted variants, the same stream as pcapng captures with three link layers and as hex text through their front-ends): sequential repetitions A,B,A / A,B,C,A, "
     "step-wise interleavings of 2-4 live decode generators under a seeded scheduler, and 8 threads decoding the same pool "
     "concurrently with a 1 microsecond switch interval; every completed decode is compared with the first completed decode "
-    "of the same arguments; distinct = distinct schedules (hash of the operation sequence) executed"
+    "of the same arguments, and sampled items with the same decode in a fresh interpreter; distinct = distinct schedules (hash of the operation sequence) executed"
 )
 ASSUMPTIONS = ["equality is the library's own == on MarshalEvent (path, declared type object, value) and on the returned dataclass objects"]
 
